@@ -57,9 +57,39 @@ func convCLIOut(c *core.Ctx, stream string, idx int, k theory.Key, chain string,
 		}
 		args = append(args, "-o", outPath)
 	}
+	// other output routes, taken by a fixed share of the cases: -o naming the standard output (a pipe, not a
+	// regular file), -o /dev/null, a file name with $ ~ { } and blanks, and --debug (diagnostics belong on stderr)
+	route := ""
+	if !toFile {
+		switch idx % 23 {
+		case 11:
+			route = "-o /dev/stdout"
+			args = append(args, "-o", []string{"/dev/stdout", "/dev/fd/1"}[idx/23%2])
+		case 13:
+			route = "-o odd name"
+			toFile = true
+			outPath = c.Scratch.Path("keys$d ~ ${x} $HOME.txt")
+			args = append(args, "-o", outPath)
+		case 17:
+			route = "--debug"
+			args = append([]string{"--debug"}, args...)
+		case 19:
+			route = "-o /dev/null"
+			args = append(args, "--output=/dev/null")
+		}
+	}
 	r := runCPU(c, cpu, nil, args...)
 	c.Eval(1)
 	if infra(c, r) {
+		return
+	}
+	if route != "" {
+		c.Count("results_through "+route, 1)
+	}
+	if route == "-o /dev/null" {
+		if a := abnormal(r); a != "" || !r.OK() {
+			c.Violate(stream, idx, fmt.Sprintf("conv:%s:devnull", k), fmt.Sprintf("info key conv --key %s -c %s --output=/dev/null fails %s", k, short(chain, 40), a), obs(r))
+		}
 		return
 	}
 	if toFile && r.OK() {
